@@ -6,8 +6,9 @@ Model: `Rustemo/Model/Ast.lean` (type inference of `grammar/types/mod.rs`), `Rus
 (`eval`: the generated `shift_action` / `reduce_action` arms of `generator/base.rs` composed with the
 generated action bodies of `generator/actions/production.rs`, run over a parse tree in the order the LR
 parser and `Tree::build` (GLR replay, right-nulled reductions included: a node may have fewer children
-than its production has symbols) call the builder). `shapesOf g ts fixed` are the shapes the generator
-derives from the inferred types `ts`; `fixed = false` is the code as it is.
+than its production has symbols) call the builder). `shapesFor fx g ts` are the shapes the generator
+variant `fx` derives from the inferred types `ts`; `Fixes.repo` is /repo as it is now (after the repair
+"right-recursive @vec rule collects elements in input order"), `Fixes.asWas` the code before the repairs.
 
 `PTree.wellShaped` says that the children of every node match the content flags of the node's
 production (implied by validity of the tree for the grammar); `eval … = .ok (some v)` says the
@@ -16,20 +17,38 @@ code that would not type-check).
 -/
 namespace Rustemo.Ast
 
-/-- The full statement for one variant of the generated `@vec` action. -/
-def C10_statement (fixed : Bool) : Prop :=
-  ∀ (g : AGrammar) (ts : List SymType), symbolTypes g = some ts →
-  ∀ (t : PTree), t.wellShaped (shapesOf g ts fixed) = true →
-  ∀ (v : Val), eval (shapesOf g ts fixed) t = .ok (some v) →
-    v.tokens = t.contentTokens (shapesOf g ts fixed)
+/-- The full statement for a variant of the generator. -/
+def C10_statement (fx : Fixes) : Prop :=
+  ∀ (g : AGrammar) (ts : List SymType), symbolTypes fx g = some ts →
+  ∀ (t : PTree), t.wellShaped (shapesFor fx g ts) = true →
+  ∀ (v : Val), eval (shapesFor fx g ts) t = .ok (some v) →
+    v.tokens = t.contentTokens (shapesFor fx g ts)
 
-/-- **Tokens in order.** For every supported shape table (the repaired variant, or no right-recursive
-`@vec` rule), every well-shaped tree — LR or GLR replay, right-nulled nodes included, location info on
-or off — and every value the builder returns: the string leaves of the value, in field / element
-order, are exactly the texts of the content tokens of the tree in input order (each once). -/
+/-- **Tokens in order.** For every supported shape table (the `insert(0, _)` variant, or no
+right-recursive `@vec` rule), every well-shaped tree — LR or GLR replay, right-nulled nodes included,
+location info on or off — and every value the builder returns: the string leaves of the value, in
+field / element order, are exactly the texts of the content tokens of the tree in input order (each once). -/
 theorem C10_tokens_in_order (sh : Shapes) (hs : Supported sh) (t : PTree) (hw : t.wellShaped sh = true)
     (v : Val) (h : eval sh t = .ok (some v)) : v.tokens = t.contentTokens sh :=
   eval_tokens sh hs t hw v h
+
+/-- **The statement holds of /repo as it is, for all grammars** (every variant with the F7 repair). -/
+theorem C10_holds : C10_statement Fixes.repo := by
+  intro g ts _ t hw v h
+  exact eval_tokens _ (Or.inl rfl) t hw v h
+
+theorem C10_holds_of_vecRight (fx : Fixes) (hf : fx.vecRight = true) : C10_statement fx := by
+  intro g ts _ t hw v h
+  exact eval_tokens _ (Or.inl (by simp [shapesFor, shapesOf, hf])) t hw v h
+
+/-- non-vacuity: `S: KA L R; @vec L: L Num | Num; @vec R: Id R | Id;` on `KA 1 2 a b`, /repo as it is:
+both vectors in input order -/
+example : symbolTypes .repo (gVec false) = some (typesNow (gVec false)) ∧
+    tVec.wellShaped (shapesNow (gVec false)) = true ∧
+    eval (shapesNow (gVec false)) tVec
+      = .ok (some (.node "S" ["l", "r"] [.vec [.str "1", .str "2"], .vec [.str "a", .str "b"]])) ∧
+    tVec.contentTokens (shapesNow (gVec false)) = ["1", "2", "a", "b"] :=
+  ⟨by decide, by decide, by rfl, by decide⟩
 
 /-- **The generated builder is `eval`.** `run` is the DefaultBuilder as the stack machine it is
 (`shift_action` pushes, every `reduce_action` arm splits its entries off the result stack), fed with
@@ -44,55 +63,42 @@ theorem C10_builder_returns_tokens (sh : Shapes) (hs : Supported sh) (t : PTree)
     (v : Val) (h : runTree sh t = .ok v) : v.tokens = t.contentTokens sh :=
   eval_tokens sh hs t hw v (eval_of_runTree sh t v h)
 
-example : (runTree (shapesOf gVecL (typesOf gVecL) false) tVecL).toOption.map Val.tokens = some ["1", "2", "3"] := by
-  decide
+/-- … in particular for /repo as it is, every grammar. -/
+theorem C10_builder_returns_tokens_repo (g : AGrammar) (ts : List SymType) (t : PTree)
+    (hw : t.wellShaped (shapesFor .repo g ts) = true) (v : Val) (h : runTree (shapesFor .repo g ts) t = .ok v) :
+    v.tokens = t.contentTokens (shapesFor .repo g ts) :=
+  eval_tokens _ (Or.inl rfl) t hw v (eval_of_runTree _ t v h)
 
-/-- non-vacuity: the left-recursive `@vec` grammar `S: KA L; @vec L: L Num | Num;` on `KA 1 2 3`
-(`S` has one content symbol: its type is an alias of `L`) -/
-example : Supported (shapesOf gVecL (typesOf gVecL) false) ∧ tVecL.wellShaped (shapesOf gVecL (typesOf gVecL) false) = true ∧
-    eval (shapesOf gVecL (typesOf gVecL) false) tVecL
-      = .ok (some (.vec [.str "1", .str "2", .str "3"])) ∧
-    tVecL.contentTokens (shapesOf gVecL (typesOf gVecL) false) = ["1", "2", "3"] :=
-  ⟨supported_of_no_right_vec _ _ (by decide), by decide, by rfl, by decide⟩
+example : (runTree (shapesNow gVecL) tVecL).toOption.map Val.tokens = some ["1", "2", "3"] := by decide
 
-/-- The hypothesis of the theorem for the code as it is, is the class predicate the driver evaluates
-(`ast class`: `rightvec=0`): no Vec-kind rule has its vector on the right. -/
-theorem C10_supported_of_no_right_vec (g : AGrammar) (ts : List SymType) (h : hasRightVec ts = false) :
-    Supported (shapesOf g ts false) :=
-  supported_of_no_right_vec g ts h
-
-/-- The full statement holds for the code as it is on every grammar without a right-recursive `@vec`
-rule … -/
-theorem C10_as_is_partial (g : AGrammar) (ts : List SymType) (_ : symbolTypes g = some ts)
-    (hr : hasRightVec ts = false) (t : PTree) (hw : t.wellShaped (shapesOf g ts false) = true) (v : Val)
-    (h : eval (shapesOf g ts false) t = .ok (some v)) : v.tokens = t.contentTokens (shapesOf g ts false) :=
-  eval_tokens _ (supported_of_no_right_vec g ts hr) t hw v h
-
-/-- … and for the repaired variant (`a.insert(0, b)` when the vector is the right operand) on every grammar. -/
-theorem C10_fixed : C10_statement true := by
-  intro g ts _ t hw v h
-  exact eval_tokens _ (Or.inl rfl) t hw v h
-
-/-- **Finding F7.** The full statement is FALSE of the code as it is: `@vec R: Id R | Id` on `a b`
-yields `["b", "a"]`. -/
-theorem C10_counterexample_right_vec : ¬ C10_statement false := by
+/-- **Finding F7 (repaired in /repo).** The full statement is FALSE of the code as it was:
+`@vec R: Id R | Id` on `a b` yielded `["b", "a"]`. -/
+theorem C10_counterexample_right_vec : ¬ C10_statement Fixes.asWas := by
   intro h
-  have := h (gVec false) (typesOf (gVec false)) (by decide) tVec (by decide)
+  have := h (gVec false) (typesWas (gVec false)) (by decide) tVec (by decide)
     (.node "S" ["l", "r"] [.vec [.str "1", .str "2"], .vec [.str "b", .str "a"]]) (by rfl)
   revert this
   decide
 
-/-- the same tree under the repaired variant: input order -/
-example : eval (shapesOf (gVec false) (typesOf (gVec false)) true) tVec
-    = .ok (some (.node "S" ["l", "r"] [.vec [.str "1", .str "2"], .vec [.str "a", .str "b"]])) := by rfl
+/-- The old code was right exactly where no Vec-kind rule has its vector on the right (`hasRightVec`,
+driver `ast classv 0`: `rightvec=0`) … -/
+theorem C10_supported_of_no_right_vec (g : AGrammar) (ts : List SymType) (h : hasRightVec ts = false) :
+    Supported (shapesOf g ts false) :=
+  supported_of_no_right_vec g ts h
+
+/-- … so that on those grammars the statement also held before the repair. -/
+theorem C10_as_was_partial (g : AGrammar) (ts : List SymType) (hr : hasRightVec ts = false) (t : PTree)
+    (hw : t.wellShaped (shapesFor .asWas g ts) = true) (v : Val)
+    (h : eval (shapesFor .asWas g ts) t = .ok (some v)) : v.tokens = t.contentTokens (shapesFor .asWas g ts) :=
+  eval_tokens _ (supported_of_no_right_vec g ts hr) t hw v h
 
 /-- **Vectors in input order.** Left recursion (`A: A B`, also what `*`, `+` expand to) appends the new
-element after the elements collected so far; right recursion appends the FIRST element LAST in the
-code as it is and puts it in front in the repaired variant. -/
+element after the elements collected so far; right recursion puts the new element in front (/repo as
+it is) — before the repair it appended the FIRST element LAST. -/
 theorem C10_vec_in_order (loc opt : Bool) (as : List Val) (b : Val) :
     (∀ fixed, applyAct loc fixed opt (.vecPush true) [.vec as, b] = .ok (.vec (as ++ [b]))) ∧
-    applyAct loc false opt (.vecPush false) [b, .vec as] = .ok (.vec (as ++ [b])) ∧
-    applyAct loc true opt (.vecPush false) [b, .vec as] = .ok (.vec (b :: as)) :=
+    applyAct loc true opt (.vecPush false) [b, .vec as] = .ok (.vec (b :: as)) ∧
+    applyAct loc false opt (.vecPush false) [b, .vec as] = .ok (.vec (as ++ [b])) :=
   ⟨fun _ => rfl, rfl, rfl⟩
 
 /-- **None exactly when absent.** The action of an optional rule that is not a repetition returns
@@ -106,8 +112,8 @@ theorem C10_optional_none_iff_absent (loc fixed : Bool) (act : Act) (ps : List V
 with fewer children than its production has symbols is well-shaped, the arm fills `None` for the
 missing content symbols. Instance: `S: Num A; A: Id | EMPTY;`, GLR tree of `7` (S reduced with ONE child). -/
 theorem C10_rn_replay :
-    tNulled.wellShaped (shapesOf (gOptTail true) (typesOf (gOptTail true)) false) = true ∧
-    eval (shapesOf (gOptTail true) (typesOf (gOptTail true)) false) tNulled
+    tNulled.wellShaped (shapesNow (gOptTail true)) = true ∧
+    eval (shapesNow (gOptTail true)) tNulled
       = .ok (some (.node "S" ["num", "a"] [.str "7", .none])) := ⟨by decide, by rfl⟩
 
 end Rustemo.Ast
